@@ -9,7 +9,7 @@ with the model run under the same order (conformance)."""
 import json, os, random
 import vlib
 
-FAMILIES = ["types", "consts", "svcs", "mixed", "modules", "modsvcs"]
+FAMILIES = ["types", "consts", "svcs", "mixed", "modules", "modsvcs", "dotted"]
 
 
 def canary(row, rng):
